@@ -549,6 +549,16 @@ theorem failureCount_replicate (acc rej : TestCase)
     failureCount (List.replicate a acc ++ List.replicate n rej) = n := by
   simp [failureCount, List.filter_append, accepts, hacc, hrej]
 
+/-- "some element fails `p`" is "not all satisfy `p`" (classically) -/
+theorem exists_not_iff_not_forall {α} (l : List α) (p : α → Prop) :
+    (∃ t ∈ l, ¬ p t) ↔ ¬ ∀ t ∈ l, p t := by
+  constructor
+  · rintro ⟨t, ht, hn⟩ h
+    exact hn (h t ht)
+  · intro h
+    exact Classical.byContradiction fun hc =>
+      h (fun t ht => Classical.byContradiction fun hp => hc ⟨t, ht, hp⟩)
+
 @[simp] theorem failed_SUCCESS : ExitCode.SUCCESS.failed = false := rfl
 @[simp] theorem failed_FAILURE : ExitCode.FAILURE.failed = true := rfl
 /-- a literal status (`ExitCode::from(k)`): the proofs below do not depend on WHICH non-zero
